@@ -68,10 +68,17 @@ func runC05(t *testing.T, tape *sim.Tape, tier string) *Outcome {
 	// one run in eight: the application also registers an executor under the name of a built-in command,
 	// which replaces the built-in one (the later registration under a name is the one dispatched)
 	override := ""
+	lateReg, registered := false, false
+	var overrideExec redis.Executor
+	doRegister := func() {}
 	if tape.Draw(8, "override") == 7 {
 		override = []string{"ECHO", "STRLEN", "TYPE", "TTL", "ZCARD"}[tape.Draw(5, "overridename")] // names that no composed command dispatches internally
 		reg := override
-		w.Srv.RegisterExexutor(reg, func(conn *redis.Conn, cmd string, args redis.Arguments) (*redis.Message, error) {
+		// half of them register it while the server is already serving (at a moment when no request is in flight):
+		// requests of that name sent before belong to the built-in executor, later ones to the application's
+		lateReg = tape.Draw(2, "latereg") == 1
+		doRegister = func() { w.Srv.RegisterExexutor(reg, overrideExec) }
+		overrideExec = func(conn *redis.Conn, cmd string, args redis.Arguments) (*redis.Message, error) {
 			cc := customCall{cid: w.D.ConnID(conn), cmd: cmd, reg: reg, tok: fmt.Sprintf("custom%d", len(customs))}
 			for {
 				s, err := args.NextString()
@@ -83,7 +90,13 @@ func runC05(t *testing.T, tape *sim.Tape, tier string) *Outcome {
 			customs = append(customs, cc)
 			w.S.Logf(cc.cid, "custom executor %s %q %q", reg, cmd, cc.args)
 			return redis.NewBulkMessage(cc.tok), nil
-		})
+		}
+		if !lateReg {
+			doRegister()
+			registered = true
+		} else {
+			o.stat("runs_registering_an_executor_while_serving", 1)
+		}
 		o.stat("runs_overriding_a_builtin_executor", 1)
 	}
 	nconn := 1 + tape.Draw(3, "nconn")
@@ -131,7 +144,7 @@ func runC05(t *testing.T, tape *sim.Tape, tier string) *Outcome {
 				for r.Quit { // QUIT is C03's subject
 					r = g.Next(i, 0, 0)
 				}
-				if override != "" && r.Name == override {
+				if override != "" && r.Name == override && !lateReg {
 					// this name is served by the application's executor in this run
 					r = &wl.Req{Idx: i, Name: override, Args: r.Args, Bytes: r.Bytes, Mode: wl.Custom, Class: "custom", SelectDB: -1}
 				}
@@ -178,7 +191,30 @@ func runC05(t *testing.T, tape *sim.Tape, tier string) *Outcome {
 						up += tape.Draw(len(c.Reqs)-c.sentReqs(), "batch")
 						o.stat("pipelined_batches", 1)
 					}
+					if lateReg && registered {
+						for k := c.sentReqs(); k < up && k < len(c.Reqs); k++ {
+							if r := c.Reqs[k]; r.Name == override && r.Mode != wl.Custom {
+								*r = wl.Req{Idx: r.Idx, Name: override, Args: r.Args, Bytes: r.Bytes, Mode: wl.Custom, Class: "custom", SelectDB: -1}
+							}
+						}
+					}
 					c.send(up)
+				}})
+			}
+		}
+		if lateReg && !registered {
+			idle := true
+			for _, c := range w.Conns {
+				vals, _, _, _ := c.decodeReplies()
+				if c.P.Inflight(0) > 0 || (!c.done && len(vals) < c.sentReqs()) {
+					idle = false
+				}
+			}
+			if idle && len(acts) > 0 {
+				acts = append(acts, sim.Action{Key: "register executor", Do: func() {
+					doRegister()
+					registered = true
+					w.S.Logf("sched", "application registers an executor for %s", override)
 				}})
 			}
 		}
